@@ -52,11 +52,11 @@ CLAIMS["C03"] = ("The 'head only ever moves to a fully validated block with stri
 CLAIMS["C04"] = ("Proof-level: (Verus, on extracted text) validate_header returns Ok only if ALL header rules hold -- height = parent+1, scheduled version, strictly later timestamp, MMR counts grew, weight lower bound, and unless SKIP_POW: PoW verifies, cumulative difficulty strictly above the parent's, achieved difficulty >= the increase, increase == network retarget over the parent's ancestors, matching secondary scaling before version 5; UntrustedBlockHeader::read accepts only headers within the future-time limit with scheduled version, admissible edge bits, right proof size and MMR sizes within the per-height weight bound; the wtema retarget is total on its stated domain, deterministic, never below the minimum, exactly max(min, floor(last*14400/(14340+dt))) hence bounded per block, and next_difficulty selects it exactly for versions >= 5. (Kani, all u64 heights x 4 chains) version schedule in 1..=5, monotone, equals the table; damp/clamp bounds; secondary ratio; graph_weight shift safety. NOT decided: the DMA window rule, PoW itself (C05), the header-MMR root commitment, and mutation-of-a-valid-chain as a history statement.",
     VERUS_TB + KANI_TB + "helpers of the validators are uninterpreted; decoded heights < 2^48 for the weight-bound multiplication.",
     'Verus conjunction-of-checks + arithmetic contracts on extracted real functions; Kani full-domain harnesses', "6 C04")
-CLAIMS["C05"] = ("Cycle verification, proof-level and UNBOUNDED (Verus on the extracted real text, any proof size, any siphash outputs): CuckatooContext::verify_impl (the primary PoW), CuckaroozContext::verify (the secondary PoW) and "
-    "CuckarooContext::verify return Ok ONLY IF the nonces are strictly ascending and within the edge mask and the 2*size edge endpoints form ONE SIMPLE CYCLE through all `size` edges: starting at endpoint 0 and repeatedly moving to the "
+CLAIMS["C05"] = ("Cycle verification, proof-level and UNBOUNDED (Verus on the extracted real text, any proof size, any siphash outputs): CuckatooContext::verify_impl (the primary PoW), CuckaroozContext::verify (the secondary PoW), "
+    "CuckarooContext::verify and CuckaroomContext::verify (directed: one simple directed cycle, no node entered twice) return Ok ONLY IF the nonces are strictly ascending and within the edge mask and the 2*size edge endpoints form ONE SIMPLE CYCLE through all `size` edges: starting at endpoint 0 and repeatedly moving to the "
     "UNIQUE other endpoint at the same node and then to the other end of that edge, the walk returns to endpoint 0 for the first time after exactly `size` steps, every node met has exactly two endpoints (no branch is skipped) and all "
     "visited endpoints are distinct -- proved through an invariant of the bucket linked lists (prev = cyclic predecessor inside the bucket), full coverage of a bucket by the inner loop, injectivity of the walk and a pigeonhole bound; "
-    "no index is out of range. The converse (every simple cycle is accepted), termination of the two walking loops, SipHash itself and the two directed variants (cuckarood, cuckaroom; pre-hard-fork only) are NOT decided. "
+    "no index is out of range. The converse (every simple cycle is accepted), termination of the two walking loops, SipHash itself and the Cuckarood variant (pre-hard-fork only; its direction-alternating walk over non-circular lists was not brought under contract) are NOT decided. "
     "Serialisation (Kani, complete per edge_bits): whatever Proof::read accepts re-encodes to the same bytes (non-zero padding bits refused), every nonce fits edge_bits, decode(encode(p)) == p, edge_bits 0 and >63 refused "
     "(quick: 10 representative edge_bits, thorough: all 63; proof sizes 42, 8, 5). Difficulty from a proof hash/scaling (Verus). BOUNDED stand-ins kept in the thorough tier only: accept <=> cycle for cycle length 4 (Kani, best effort, memory-capped).",
     VERUS_TB + KANI_TB + "siphash_block / sipnode uninterpreted; one assumed fact about u64::leading_zeros (>= 1 below 2^63) used only for `1 + mask`; proofsize in 1..=2^20.",
